@@ -16641,23 +16641,21 @@ func (msg *BGPUpdate) DecodeFromBytes(data []byte, options ...*MarshallingOption
 			}
 		}
 		pLen := uint16(p.Len(options...))
-		if pLen > pathlen {
+		if pLen > pathlen || len(data) < p.Len(options...) {
 			e = NewMessageErrorWithErrorHandling(
 				eCode, BGP_ERROR_SUB_ATTRIBUTE_LENGTH_ERROR, data, ERROR_HANDLING_TREAT_AS_WITHDRAW, nil, "path attribute length exceeds path attributes boundary")
 			if e.(*MessageError).Stronger(strongestError) {
 				strongestError = e
 			}
-			return strongestError
+			if len(data) < int(pathlen) {
+				return strongestError
+			}
+			// RFC 7606 Section 4: the NLRI field is still located by the
+			// total attribute length, so that the prefixes can be withdrawn
+			data = data[pathlen:]
+			break
 		}
 		pathlen -= pLen
-		if len(data) < p.Len(options...) {
-			e = NewMessageErrorWithErrorHandling(
-				eCode, BGP_ERROR_SUB_ATTRIBUTE_LENGTH_ERROR, data, ERROR_HANDLING_TREAT_AS_WITHDRAW, nil, "attribute length is short")
-			if e.(*MessageError).Stronger(strongestError) {
-				strongestError = e
-			}
-			return strongestError
-		}
 		data = data[p.Len(options...):]
 		if e == nil || e.(*MessageError).ErrorHandling != ERROR_HANDLING_ATTRIBUTE_DISCARD {
 			msg.PathAttributes = append(msg.PathAttributes, p)
